@@ -272,6 +272,73 @@ theorem C27_coinbase_round_check_overpay_false :
   have := h [(.arb 0, 10), (.arb 1, 1)] [(.arb 0, 10), (.arb 0, 10)] (by decide)
   exact absurd this (by decide)
 
+/-! ### the DPoS 2.0 per-block split (getDPoSV2RewardsV2; compared with the real function by the
+    `v2split` stream) -/
+
+/-- **The split hands out exactly the block's reward** (64-bit total), whoever the sponsor is — a
+    current CRC arbiter (paid everything) or a registered producer (voters' shares, the rest to the
+    producer's owner) — and nothing when the sponsor is unknown. -/
+theorem C27_v2split_conserves (reward : Fixed64) (crcMatch : Option Nat) (producerKnown : Bool)
+    (shares : List (Nat × Fixed64)) :
+    sumW ((v2Split reward crcMatch producerKnown shares).map (·.2)) =
+      if crcMatch.isSome || producerKnown then reward else 0 := by
+  unfold v2Split
+  cases crcMatch with
+  | some i => simp [sumW, sumFrom]
+  | none =>
+    cases producerKnown with
+    | false => simp [sumW, sumFrom]
+    | true =>
+      simp only [Bool.not_true, Bool.false_eq_true, if_false, Option.isSome_none, Bool.false_or, if_true,
+        List.map_append, List.map_map, List.map_cons, List.map_nil]
+      have hm : (List.map ((fun x => x.2) ∘ fun s => (V2Key.voter s.1, s.2)) shares) = shares.map (·.2) := by
+        apply List.map_congr_left; intro a _; rfl
+      rw [hm]
+      unfold sumW
+      rw [sumFrom_append]
+      simp only [sumFrom]
+      rw [BitVec.add_comm, BitVec.sub_add_cancel]
+
+/-- every credited amount is non-negative and the exact total is the reward, provided the voters'
+    shares are non-negative and together at most the reward.  `_partial`: that bound on the float
+    shares (they are parts of three quarters of the reward) is a hypothesis here. -/
+theorem C27_v2split_bounds_partial (reward : Fixed64) (crcMatch : Option Nat) (producerKnown : Bool)
+    (shares : List (Nat × Fixed64)) (hR : 0 ≤ toInt reward)
+    (hs : ∀ s ∈ shares, 0 ≤ toInt s.2) (hsum : sumZ (shares.map (·.2)) ≤ toInt reward) :
+    ∀ e ∈ v2Split reward crcMatch producerKnown shares, 0 ≤ toInt e.2 := by
+  intro e he
+  unfold v2Split at he
+  cases crcMatch with
+  | some i =>
+    simp only [List.mem_singleton] at he
+    subst he; exact hR
+  | none =>
+    cases producerKnown with
+    | false => simp at he
+    | true =>
+      simp only [Bool.not_true, Bool.false_eq_true, if_false, List.mem_append, List.mem_map, List.mem_singleton] at he
+      rcases he with ⟨s, hsm, rfl⟩ | rfl
+      · exact hs s hsm
+      · have hnn : ∀ x ∈ shares.map (·.2), 0 ≤ toInt x := by
+          intro x hx
+          obtain ⟨s, hsm, rfl⟩ := List.mem_map.mp hx
+          exact hs s hsm
+        have h0 := sumZ_nonneg _ hnn
+        have hRhi := toInt_hi reward
+        have hex : toInt (sumW (shares.map (·.2))) = sumZ (shares.map (·.2)) := by
+          rw [sumW_eq, Fixed64.toInt_ofInt]; exact bmod_exact _ (by omega) (by omega)
+        have e : reward - sumW (shares.map (·.2)) = ofInt (toInt reward - toInt (sumW (shares.map (·.2)))) := by
+          unfold ofInt toInt
+          rw [BitVec.sub_eq_iff_eq_add, ← BitVec.ofInt_toInt (x := sumW (shares.map (·.2))), ← BitVec.ofInt_add, BitVec.ofInt_toInt]
+          have : reward.toInt - (sumW (shares.map (·.2))).toInt + (sumW (shares.map (·.2))).toInt = reward.toInt := by omega
+          rw [this, BitVec.ofInt_toInt]
+        show 0 ≤ toInt (reward - sumW (shares.map (·.2)))
+        rw [e, Fixed64.toInt_ofInt, bmod_exact _ (by omega) (by omega)]
+        omega
+
+example : v2Split 53272451 none true [(0, 15981735), (1, 23972602)] =
+    [(.voter 0, 15981735), (.voter 1, 23972602), (.owner, 13318114)] := by decide
+
 /-! ### T-gen -/
 
 /-- the callers: forceChange clears with `smoothClearing = false` (what the hook re-enacts) whenever
